@@ -596,7 +596,7 @@ def strategies():
         k = draw(st.sampled_from([
             "fall-off", "fall-off", "exit-status", "exit-status", "exit-status", "exit-message", "exit-none", "raise-builtin", "raise-builtin",
             "raise-own-class", "zero-division", "name-error", "assert", "raise-SystemExit", "raise-SystemExit-n", "KeyboardInterrupt",
-            "exit-in-function", "premature-eof", "compile-error", "lex-error",
+            "exit-in-function", "premature-eof", "compile-error", "lex-error", "file-not-found", "os-error-subclass",
         ]))
         n = draw(st.sampled_from([0, 1, 2, 3, 7, 42, 100, 127, 128, 255]))
         msg = draw(st.sampled_from(["boom", "bad thing", "\u00e9chec", "a: b", ""]))
@@ -626,6 +626,13 @@ def strategies():
             return k, "(raise KeyboardInterrupt)"
         if k == "exit-in-function":
             return k, "(defn die [] (print \"dying\") (sys.exit %d))\n(die)" % n
+        if k == "file-not-found":  # the program's own failure to open a file, not hy's failure to open the program
+            return k, draw(st.sampled_from(["(open \"/nonexistent-vf/%s.txt\")" % (msg.replace(" ", "-").replace(":", "") or "x"),
+                                           "(raise (FileNotFoundError 2 \"No such file or directory\" \"data.csv\"))",
+                                           "(import os) (os.stat \"/nonexistent-vf-dir\")"]))
+        if k == "os-error-subclass":
+            return k, draw(st.sampled_from(["(raise (PermissionError 13 \"Permission denied\" \"p.txt\"))", "(raise (IsADirectoryError 21 \"Is a directory\" \"d\"))",
+                                           "(raise (NotADirectoryError 20 \"Not a directory\" \"n/x\"))"]))
         if k == "premature-eof":
             return k, "(print \"never\" (+ 1"
         if k == "compile-error":
